@@ -382,7 +382,7 @@ def run(chk):
              "options_mutations": 0, "validate_tie": {}, "pairs": {}}
     runner = Runner(reps=2, wide=thorough)    # thorough: 6 thread counts x 7 schedules x 2 = 84 runs per accepted loop
     gen = R.Gen(chk.rng)
-    n = 320 if thorough else 50
+    n = 320 if thorough else 30      # quick: the systematic families (160 cases) run first; 30 random bodies keep an idle run < ~3 min
     if os.environ.get("VERIF_C09_CASES"):          # self-test aid: fewer random cases (the corpus always runs)
         n = int(os.environ["VERIF_C09_CASES"])
     todo = [(c, "paralleldo" if k % 3 else "do+parallel") for k, c in enumerate(R.family_cases(thorough))]
